@@ -93,6 +93,13 @@ FailFirst(v) ==
 KindsVectors == {v \in [1..3 -> HVecOuts] : FailFirst(v)}
 KindsHistory(v) == [i \in 1..Len(KindSeq) |-> CallOf(KindSeq[i], 2, [n \in 1..3 |-> <<v[n], "ok">>])]
 
+\* ---- mode "wide": ONE kind is configured with the whole pool, every other kind with node 1 only; the wide kind is
+\* submitted once, a node hangs and another accepts (process concurrency = the number of nodes): whatever the
+\* service derives from the OTHER kinds' lists must not narrow the delivery of this one
+WidePattern(big) == [k \in Kinds |-> IF k = big THEN {1, 2, 3} ELSE {1}]
+WideVectors == {v \in [1..3 -> HVecOuts] : (\E n \in 1..3 : v[n] = "hang") /\ (\E n \in 1..3 : Accepts(v[n]))}
+WideHistory(big, v) == <<CallOf(big, 2, [n \in 1..3 |-> <<v[n], "ok">>])>>
+
 SetToSeq(S) == LET RECURSIVE go(_, _)
                    go(T, i) == IF i > 9 THEN <<>> ELSE IF i \in T THEN <<i>> \o go(T, i + 1) ELSE go(T, i + 1)
                IN go(S, 1)
@@ -103,10 +110,13 @@ Init ==
     /\ \E k \in HNodeCounts : /\ clients \in [1..k -> HClients]
                               /\ IF Mode = "kinds"
                                  THEN \E big \in HKinds : conf = [kk \in Kinds |-> SetToSeq(Pattern(big)[kk])]
+                                 ELSE IF Mode = "wide" THEN \E big \in HKinds : conf = [kk \in Kinds |-> SetToSeq(WidePattern(big)[kk])]
                                  ELSE IF Mode = "sim" THEN conf = [kk \in Kinds |-> <<>>]   \* chosen kind by kind (SimSetConf)
                                  ELSE conf = [kk \in Kinds |-> SetToSeq(1..k)]
     /\ want \in HLens
-    /\ IF Mode = "kinds" THEN \E v \in KindsVectors : calls = KindsHistory(v) ELSE calls = <<>>
+    /\ IF Mode = "kinds" THEN \E v \in KindsVectors : calls = KindsHistory(v)
+       ELSE IF Mode = "wide" THEN \E v \in WideVectors : calls = WideHistory(CHOOSE k \in HKinds : Len(conf[k]) = 3, v)
+       ELSE calls = <<>>
 
 Next ==
     /\ Mode = "sim" \/ Len(calls) < want
